@@ -146,6 +146,23 @@ def _variants(n_steps):
     var("second_engine", second_engine)
     # placeholder: the configuration is completed in run_item from the base run (needs 10000's state after step 1)
     var("late_twin", lambda c: None, exclude=())
+    # sensors follow an importer database (completed in run_item: the database is written by a two-body run of the
+    # same network first and ALSO holds rows for the targets): the targets are still propagated by the run itself
+    var("sensors_imported", lambda c: c["propagation"].update(sensor_realtime_propagation=False), exclude=(20001, 20002))
+
+    # a second engine that lists target 10001 again: with the identical state that is legal and changes nobody's truth ...
+    def shared_same(c):
+        c["engines"].append(scen.engine(2, [copy.deepcopy(c["engines"][0]["targets"][1])], [scen.ground_sensor(20004, -20.0, 60.0)]))
+
+    var("second_engine_shared_target_same_state", shared_same)
+
+    # ... with a slightly different state (x, y rounded to 10 m) the configuration must be refused, not merged
+    def shared_other(c):
+        t = copy.deepcopy(c["engines"][0]["targets"][1])
+        t["state"]["position"] = [round(t["state"]["position"][0], 2), round(t["state"]["position"][1], 2), t["state"]["position"][2]]
+        c["engines"].append(scen.engine(2, [t], [scen.ground_sensor(20004, -20.0, 60.0)]))
+
+    var("second_engine_shared_target_other_state", shared_other)
     return base, out
 
 
@@ -184,7 +201,9 @@ def _run(cfg, plan, choices=()):
 def _run_here(cfg, plan, choices=()):
     """Run through the public propagateTo API in the consecutive calls of ``plan``; record truth bytes per step."""
     fakeray.MEMO_ENABLED = False
-    sc = scen.build(cfg)
+    cfg = dict(cfg)
+    db_path, importer = cfg.pop("_db_path", None), cfg.pop("_importer", None)  # private keys of this check
+    sc = scen.build(cfg, db_path=db_path, importer_db_path=f"sqlite:///{importer}" if importer else None)
     fakeray.set_schedule(list(choices))
     truth = []  # per step: {agent id: bytes}
     other = []
@@ -294,7 +313,30 @@ def run_item(item):
                 "scope": "scenario_step", "scope_instance_id": 0, "start_time": scen.iso(START + timedelta(seconds=2 * DT)),
                 "event_type": "target_addition", "tasking_engine_id": 1, "target_agent": scen.target_eci(10009, x[:3], x[3:]),
             })
+        tmpdir = None
+        if name == "sensors_imported":
+            import shutil  # noqa: PLC0415
+            import tempfile  # noqa: PLC0415
+
+            tmpdir = tempfile.mkdtemp(prefix="verif_c10_")
+            src = copy.deepcopy(base_cfg)
+            src["propagation"].update(propagation_model="two_body", truth_simulation_only=True)
+            src["_db_path"] = f"{tmpdir}/importer.sqlite3"
+            made = _run(src, [n])
+            res.case("variant/importer_written", {"pair": name}, made["error"] is None and len(made["rows"]) > 0,
+                     signature="C10/variant/importer_source_run_failed", observed=made["error"], item=item)
+            cfg["_importer"] = src["_db_path"]
         r = _run(cfg, plan)
+        if tmpdir:
+            shutil.rmtree(tmpdir, ignore_errors=True)
+        if name == "second_engine_shared_target_other_state":
+            refused = bool(r["error"]) and "DuplicateTarget" in r["error"] and not r["truth"]
+            res.case("variant/conflicting_target_states_refused", {"pair": name}, refused, nontrivial=True, key=name,
+                     signature="C10/variant/conflicting_target_states_accepted", observed={"error": r["error"], "steps": len(r["truth"])},
+                     expected="DuplicateTargetError at build time", item=item)
+            res.states += 1
+            res.traces += 1
+            return res
         if name == "late_twin" and not r["error"]:
             bad = [(k + 1, np.frombuffer(st[10000]).tolist(), np.frombuffer(st.get(10009, b"")).tolist())
                    for k, st in enumerate(r["truth"]) if k >= 1 and st.get(10009) != st[10000]]
